@@ -1,6 +1,7 @@
 package router
 
 import (
+	"os"
 	"io"
 	"net/http"
 	"net/netip"
@@ -164,6 +165,7 @@ type vQStream struct {
 	pos    int
 	writes [][]byte
 	closed int
+	wd     time.Time // write deadline, as armed by the handler
 }
 
 func (s *vQStream) Read(p []byte) (int, error) {
@@ -175,6 +177,11 @@ func (s *vQStream) Read(p []byte) (int, error) {
 	return n, nil
 }
 func (s *vQStream) Write(p []byte) (int, error) {
+	// the response may become available any time within the request budget: a write deadline armed earlier
+	// may have passed by now
+	if !s.wd.IsZero() && time.Now().After(s.wd) {
+		return 0, os.ErrDeadlineExceeded
+	}
 	s.writes = append(s.writes, append([]byte(nil), p...))
 	return len(p), nil
 }
@@ -182,6 +189,14 @@ func (s *vQStream) Close() error                      { s.closed++; return nil }
 func (s *vQStream) CancelRead(quic.StreamErrorCode)   {}
 func (s *vQStream) CancelWrite(quic.StreamErrorCode)  {}
 func (s *vQStream) SetReadDeadline(t time.Time) error { return nil }
+func (s *vQStream) SetWriteDeadline(t time.Time) error {
+	s.wd = t
+	return nil
+}
+func (s *vQStream) SetDeadline(t time.Time) error {
+	s.wd = t
+	return nil
+}
 
 // VerifH_C03_QuicStream: a DoQ stream carrying one length-prefixed query gets exactly one length-prefixed
 // response; a stream whose bytes do not decode gets nothing.
